@@ -32,6 +32,9 @@ CONSTANTS
   FixStamp,      \* TRUE: model the repaired OCC stamp (last_updated_ms strictly increases per commit)
   FixEtag,       \* TRUE: model the repaired CAS read (pointer must still name the validated version)
   FixGCOrder,    \* TRUE: model the repaired collector (markers loaded before the metadata read)
+  FixGCFail,     \* TRUE: repaired failure handling: an unlistable marker directory aborts, an unreadable
+                 \* marker protects its name in both directories, both directories are listed (and every
+                 \* listed path classified) before the first delete
   FixInterrupt,  \* TRUE: model the repaired commit(): an interrupted commit keeps its files (outcome unknown)
   FaultKinds,    \* subset of {"before", "after", "async"} injected when model checking
   FaultBudget,   \* number of injected storage faults when model checking
@@ -175,7 +178,7 @@ EmptyLoc == [files |-> <<>>, marks |-> {}, base |-> <<>>, baseName |-> NoName, s
              todo |-> <<>>, finalMans |-> <<>>, newFiles |-> {}, list |-> 0, draft |-> <<>>, ts |-> 0,
              valName |-> NoName, prevName |-> NoName, nextVer |-> 0, etagName |-> NoName, target |-> 0,
              err |-> "none", after |-> "none", pend |-> 0, chk |-> 0, from |-> 0, body |-> <<>>, got |-> {}, rfiles |-> {},
-             reach |-> {}, prot |-> {}, cand |-> {}, cutoff |-> 0, mseen |-> {}]
+             reach |-> {}, prot |-> {}, cand |-> {}, cutoff |-> 0, mseen |-> {}, esc |-> FALSE]
 
 InitBody(k) ==
   [uuid |-> UUID0, cur |-> IF k = 0 THEN 0 ELSE 900 + k, lastUpd |-> k, lastSeq |-> k,
@@ -799,6 +802,8 @@ ReachOf(b) ==
   IN [lists |-> ls, mans |-> ms, data |-> ds]
 
 FreshMarker(f, now) == mtimeM[f] + MarkerTimeout > now
+\* the phase that follows the metadata read / the marker load when markers come first
+AfterBegin == IF FixGCFail THEN "g_listd" ELSE "g_cutd"
 
 \* Phases (program counters).  As the code is (FixGCOrder = FALSE):
 \*   idle -GBegin-> g_stampm -GStampM-> g_markers -GLoadMarkers-> g_cutd
@@ -819,8 +824,9 @@ GBegin(a, name) ==
      IN /\ loc' = [loc EXCEPT ![a] = [(IF FixGCOrder THEN loc[a] ELSE EmptyLoc) EXCEPT
                                         !.body = b, !.reach = r.lists \cup r.mans \cup r.data, !.from = Len(commitLog)]]
         \* a reachable list or manifest that is missing makes the run abort before any delete
-        /\ pc' = [pc EXCEPT ![a] = IF (r.lists \cup r.mans) \subseteq present
-                                   THEN (IF FixGCOrder THEN "g_cutd" ELSE "g_stampm") ELSE "g_abort"]
+        \* (a file that exists but has no parseable content is not in DOMAIN lists / DOMAIN mans)
+        /\ pc' = [pc EXCEPT ![a] = IF (r.lists \cup r.mans) \subseteq present /\ r.lists \subseteq DOMAIN lists /\ r.mans \subseteq DOMAIN mans
+                                   THEN (IF FixGCOrder THEN AfterBegin ELSE "g_stampm") ELSE "g_abort"]
   /\ UNCHANGED <<storageVars, clock, lockHolder, rlock, opi, att, faults, armed, ghostVars>>
 
 \* cutoff for marker abandonment: time.time() before the marker listing
@@ -841,46 +847,126 @@ GLoadMarkers(a) ==
   /\ pc[a] = "g_markers"
   /\ loc' = [loc EXCEPT ![a].prot = {f \in markers : FreshMarker(f, loc[a].cutoff)},
                         ![a].mseen = {f \in markers : ~FreshMarker(f, loc[a].cutoff)}]
-  /\ pc' = [pc EXCEPT ![a] = IF FixGCOrder THEN "g_begin" ELSE "g_cutd"]
+  /\ pc' = [pc EXCEPT ![a] = IF FixGCOrder THEN "g_begin" ELSE AfterBegin]
   /\ UNCHANGED <<storageVars, clock, lockHolder, rlock, opi, att, faults, armed, ghostVars>>
 
 GSweepMarker(a, f) ==
   /\ Role[a] = "collector"
-  /\ pc[a] \in {"g_begin", "g_cutd"}
+  /\ pc[a] \in {"g_begin", "g_cutd", "g_listd"}
   /\ f \in loc[a].mseen
   /\ markers' = markers \ {f}
   /\ loc' = [loc EXCEPT ![a].mseen = @ \ {f}]
   /\ UNCHANGED <<hint, metas, metaTime, lists, mans, present, ftime, mtimeM, clock, lockHolder, rlock, pc, opi, att, faults, armed, ghostVars>>
 
 Eligible(a, f) == f \notin loc[a].reach /\ f \notin loc[a].prot /\ f \in present /\ ftime[f] <= loc[a].cutoff
-SweepComplete(a) == \A f \in loc[a].cand : ~Eligible(a, f)
+\* the listed files the current sweep is about
+CandNow(a) == IF FixGCFail THEN {f \in loc[a].cand : IsDataFile(f) <=> pc[a] = "g_sweepd"} ELSE loc[a].cand
+SweepComplete(a) == \A f \in CandNow(a) : ~Eligible(a, f)
 
-\* cutoff = now - grace, read before a directory is listed; the previous directory's sweep is over
+\* cutoff = now - grace.  As the code was: read before each directory is listed, the data/ sweep
+\* runs before metadata/manifests is listed.  Repaired (FixGCFail): read once, both directories are
+\* listed before the first delete.
 GStamp(a, now) ==
   /\ Role[a] = "collector"
-  /\ pc[a] \in {"g_cutd", "g_sweepd"}
+  /\ pc[a] \in (IF FixGCFail THEN {"g_stampd", "g_sweepd"} ELSE {"g_cutd", "g_sweepd"})
   /\ pc[a] = "g_cutd" => loc[a].mseen = {}
   /\ pc[a] = "g_sweepd" => SweepComplete(a)
   /\ ClockOK(now)
   /\ clock' = now
-  /\ loc' = [loc EXCEPT ![a].cutoff = now - GraceOf(a), ![a].cand = {}]
-  /\ pc' = [pc EXCEPT ![a] = IF pc[a] = "g_cutd" THEN "g_listd" ELSE "g_listm"]
+  /\ loc' = [loc EXCEPT ![a].cutoff = now - GraceOf(a), ![a].cand = IF FixGCFail THEN @ ELSE {}]
+  /\ pc' = [pc EXCEPT ![a] = IF FixGCFail THEN (IF pc[a] = "g_stampd" THEN "g_sweepd" ELSE "g_sweepm")
+                                          ELSE (IF pc[a] = "g_cutd" THEN "g_listd" ELSE "g_listm")]
   /\ UNCHANGED <<storageVars, lockHolder, rlock, opi, att, faults, armed, ghostVars>>
 
 \* listing of data/ (g_listd) or metadata/manifests/ (g_listm)
 GList(a) ==
   /\ Role[a] = "collector"
   /\ pc[a] \in {"g_listd", "g_listm"}
-  /\ loc' = [loc EXCEPT ![a].cand = IF pc[a] = "g_listd" THEN {f \in present : IsDataFile(f)}
-                                                         ELSE {f \in present : ~IsDataFile(f)}]
-  /\ pc' = [pc EXCEPT ![a] = IF pc[a] = "g_listd" THEN "g_sweepd" ELSE "g_sweepm"]
+  /\ pc[a] = "g_listd" /\ FixGCFail => loc[a].mseen = {}
+  /\ loc' = [loc EXCEPT ![a].cand = (IF FixGCFail /\ pc[a] = "g_listm" THEN loc[a].cand ELSE {}) \cup
+                                    (IF pc[a] = "g_listd" THEN {f \in present : IsDataFile(f)}
+                                                          ELSE {f \in present : ~IsDataFile(f)})]
+  /\ pc' = [pc EXCEPT ![a] = IF pc[a] = "g_listd" THEN (IF FixGCFail THEN "g_listm" ELSE "g_sweepd")
+                                                  ELSE (IF FixGCFail THEN "g_stampd" ELSE "g_sweepm")]
   /\ UNCHANGED <<storageVars, clock, lockHolder, rlock, opi, att, faults, armed, ghostVars>>
+
+(* ---- collector failure handling (C07) ---- *)
+\* a reachable manifest list / manifest cannot be read (missing, unparseable, transient error):
+\* the run aborts; this happens while reachability is computed, before any delete
+GFaultReach(a) ==
+  /\ Role[a] = "collector"
+  /\ pc[a] = (IF FixGCOrder THEN AfterBegin ELSE "g_stampm")
+  /\ pc' = [pc EXCEPT ![a] = "g_abort"]
+  /\ UNCHANGED <<storageVars, clock, lockHolder, rlock, opi, att, loc, faults, armed, ghostVars>>
+
+\* the marker directory cannot be listed.  As the code was: treated as "no markers".
+GFaultMarkList(a) ==
+  /\ Role[a] = "collector"
+  /\ pc[a] = "g_markers"
+  /\ IF FixGCFail
+     THEN pc' = [pc EXCEPT ![a] = "g_abort"] /\ UNCHANGED loc
+     ELSE /\ loc' = [loc EXCEPT ![a].prot = {}, ![a].mseen = {}]
+          /\ pc' = [pc EXCEPT ![a] = IF FixGCOrder THEN "g_begin" ELSE AfterBegin]
+  /\ UNCHANGED <<storageVars, clock, lockHolder, rlock, opi, att, faults, armed, ghostVars>>
+
+\* a marker's payload cannot be read.  As the code was: its target is assumed to be data/<name>, so a
+\* marker protecting a manifest or a list stops protecting it.  Repaired: the name stays protected.
+GMarkUnreadable(a, f) ==
+  /\ Role[a] = "collector"
+  /\ pc[a] \in {"g_begin", "g_cutd", "g_listd"}
+  /\ f \in loc[a].prot \cup loc[a].mseen
+  /\ loc' = [loc EXCEPT ![a].prot = IF ~FixGCFail /\ ~IsDataFile(f) THEN @ \ {f} ELSE @]
+  /\ UNCHANGED <<storageVars, clock, lockHolder, rlock, pc, opi, att, faults, armed, ghostVars>>
+
+\* an abandoned marker could not be removed: it keeps protecting its file
+GMarkUndeletable(a, f) ==
+  /\ Role[a] = "collector"
+  /\ pc[a] \in {"g_begin", "g_cutd", "g_listd"}
+  /\ f \in loc[a].mseen
+  /\ loc' = [loc EXCEPT ![a].mseen = @ \ {f}, ![a].prot = @ \cup {f}]
+  /\ UNCHANGED <<storageVars, clock, lockHolder, rlock, pc, opi, att, faults, armed, ghostVars>>
+
+\* a directory cannot be listed, or the listing contains a path outside the table: abort
+GFaultList(a) ==
+  /\ Role[a] = "collector"
+  /\ pc[a] \in {"g_listd", "g_listm"}
+  /\ pc' = [pc EXCEPT ![a] = "g_abort"]
+  /\ UNCHANGED <<storageVars, clock, lockHolder, rlock, opi, att, loc, faults, armed, ghostVars>>
+
+\* refresh() itself fails: collect() raises before anything else happened
+GFaultEarly(a) ==
+  /\ Role[a] = "collector"
+  /\ pc[a] \in {"idle", "g_begin", "g_stampm", "g_listd", "g_cutd"}
+  /\ opi[a] <= Len(Prog[a])
+  /\ pc' = [pc EXCEPT ![a] = "g_abort"]
+  /\ UNCHANGED <<storageVars, clock, lockHolder, rlock, opi, att, loc, faults, armed, ghostVars>>
+
+\* the listing contains a path outside the table root.  As the code was: the guard sits inside the
+\* delete loop (entries before the escaping one are processed first).  Repaired: every listed path
+\* is classified before the first delete.
+GListEscaping(a) ==
+  /\ Role[a] = "collector"
+  /\ pc[a] \in {"g_listd", "g_listm"}
+  /\ IF FixGCFail
+     THEN pc' = [pc EXCEPT ![a] = "g_abort"] /\ UNCHANGED loc
+     ELSE /\ loc' = [loc EXCEPT ![a].esc = TRUE,
+                                ![a].cand = IF pc[a] = "g_listd" THEN {f \in present : IsDataFile(f)} ELSE {f \in present : ~IsDataFile(f)}]
+          /\ pc' = [pc EXCEPT ![a] = IF pc[a] = "g_listd" THEN "g_sweepd" ELSE "g_sweepm"]
+  /\ UNCHANGED <<storageVars, clock, lockHolder, rlock, opi, att, faults, armed, ghostVars>>
+
+\* a candidate cannot be stat'ed or deleted: it is skipped (nothing live is at risk)
+GSkip(a, f) ==
+  /\ Role[a] = "collector"
+  /\ pc[a] \in {"g_sweepd", "g_sweepm"}
+  /\ f \in CandNow(a)
+  /\ loc' = [loc EXCEPT ![a].cand = @ \ {f}]
+  /\ UNCHANGED <<storageVars, clock, lockHolder, rlock, pc, opi, att, faults, armed, ghostVars>>
 
 \* one listed file is deleted: only if unreachable, unprotected and older than the cutoff
 GDelete(a, f) ==
   /\ Role[a] = "collector"
   /\ pc[a] \in {"g_sweepd", "g_sweepm"}
-  /\ f \in loc[a].cand
+  /\ f \in CandNow(a)
   /\ Eligible(a, f)
   /\ present' = present \ {f}
   /\ deleted' = deleted \cup {[f |-> f, by |-> a, i |-> opi[a], at |-> loc[a].from]}
@@ -889,12 +975,55 @@ GDelete(a, f) ==
 
 GReturn(a) ==
   /\ Role[a] = "collector"
-  /\ \/ pc[a] = "g_sweepm" /\ SweepComplete(a)
+  /\ \/ pc[a] = "g_sweepm" /\ SweepComplete(a) /\ ~loc[a].esc
      \/ pc[a] = "g_abort"
-  /\ outcomes' = [outcomes EXCEPT ![a] = Append(@, IF pc[a] = "g_abort" THEN "aborted" ELSE "ok")]
+     \/ pc[a] \in {"g_sweepd", "g_sweepm"} /\ loc[a].esc       \* the escaping entry was reached: abort
+  /\ outcomes' = [outcomes EXCEPT ![a] = Append(@, IF pc[a] = "g_abort" \/ loc[a].esc THEN "aborted" ELSE "ok")]
   /\ pc' = [pc EXCEPT ![a] = "idle"]
   /\ opi' = [opi EXCEPT ![a] = @ + 1]
   /\ UNCHANGED <<storageVars, clock, lockHolder, rlock, att, loc, faults, armed, commitLog, serial, tsOf, sidOfOp, reads, deleted, initBody>>
+
+GFaultReachB(a) ==
+  /\ Role[a] = "collector"
+  /\ pc[a] = (IF FixGCOrder THEN AfterBegin ELSE "g_stampm")
+  /\ pc' = [pc EXCEPT ![a] = "g_abort"]
+  /\ UNCHANGED <<storageVars, clock, lockHolder, rlock, opi, att, loc, armed, ghostVars>>
+
+GFaultMarkListB(a) ==
+  /\ Role[a] = "collector"
+  /\ pc[a] = "g_markers"
+  /\ IF FixGCFail
+     THEN pc' = [pc EXCEPT ![a] = "g_abort"] /\ UNCHANGED loc
+     ELSE /\ loc' = [loc EXCEPT ![a].prot = {}, ![a].mseen = {}]
+          /\ pc' = [pc EXCEPT ![a] = IF FixGCOrder THEN "g_begin" ELSE "g_cutd"]
+  /\ UNCHANGED <<storageVars, clock, lockHolder, rlock, opi, att, armed, ghostVars>>
+
+GFaultListB(a) ==
+  /\ Role[a] = "collector"
+  /\ pc[a] \in {"g_listd", "g_listm"}
+  /\ pc' = [pc EXCEPT ![a] = "g_abort"]
+  /\ UNCHANGED <<storageVars, clock, lockHolder, rlock, opi, att, loc, armed, ghostVars>>
+
+GMarkUnreadableB(a, f) ==
+  /\ Role[a] = "collector"
+  /\ pc[a] \in {"g_begin", "g_cutd"}
+  /\ f \in loc[a].prot \cup loc[a].mseen
+  /\ loc' = [loc EXCEPT ![a].prot = IF ~FixGCFail /\ ~IsDataFile(f) THEN @ \ {f} ELSE @]
+  /\ UNCHANGED <<storageVars, clock, lockHolder, rlock, pc, opi, att, armed, ghostVars>>
+
+GMarkUndeletableB(a, f) ==
+  /\ Role[a] = "collector"
+  /\ pc[a] \in {"g_begin", "g_cutd"}
+  /\ f \in loc[a].mseen
+  /\ loc' = [loc EXCEPT ![a].mseen = @ \ {f}, ![a].prot = @ \cup {f}]
+  /\ UNCHANGED <<storageVars, clock, lockHolder, rlock, pc, opi, att, armed, ghostVars>>
+
+GSkipB(a, f) ==
+  /\ Role[a] = "collector"
+  /\ pc[a] \in {"g_sweepd", "g_sweepm"}
+  /\ f \in CandNow(a)
+  /\ loc' = [loc EXCEPT ![a].cand = @ \ {f}]
+  /\ UNCHANGED <<storageVars, clock, lockHolder, rlock, pc, opi, att, armed, ghostVars>>
 
 CollectorNext(a) ==
   \/ \E n \in DOMAIN metas : GBegin(a, n)
@@ -903,6 +1032,11 @@ CollectorNext(a) ==
   \/ GStamp(a, NowVal) \/ GList(a)
   \/ \E f \in loc[a].cand : GDelete(a, f)
   \/ GReturn(a)
+  \/ /\ faults > 0
+     /\ faults' = faults - 1
+     /\ \/ GFaultReachB(a) \/ GFaultMarkListB(a) \/ GFaultListB(a)
+        \/ \E f \in loc[a].prot \cup loc[a].mseen : GMarkUnreadableB(a, f) \/ GMarkUndeletableB(a, f)
+        \/ \E f \in loc[a].cand : GSkipB(a, f)
 
 (***************************************************************************)
 (* Next-state relation for model checking: identifiers derived from         *)
@@ -1034,6 +1168,12 @@ OnlyOrphansDeleted ==
 InflightPresent ==
   \A a \in Committers : pc[a] \notin {"idle", "rollback", "raise_keep"} =>
      (SeqToSet(loc[a].files) \cup loc[a].newFiles) \subseteq present
+
+\* C07: a collection that raised deleted nothing
+AbortDeletesNothing ==
+  \A d \in deleted : d.by \in Collectors =>
+     (d.i <= Len(outcomes[d.by]) => outcomes[d.by][d.i] # "aborted")
+     /\ (d.i = opi[d.by] => (pc[d.by] # "g_abort" /\ ~loc[d.by].esc))
 
 \* C04: an ambiguous outcome deletes nothing the transaction wrote
 NoDeleteOnAmbiguous ==
